@@ -439,3 +439,138 @@ Proof.
   - subst v. lia.
   - pose proof (Hi v L). lia.
 Qed.
+
+(* ------------------------------------------------------------------ reading the wall clock in a table zone *)
+Lemma z_wall_split : forall z t,
+  wall z (unix t) = z_lday z t * DAY_S + z_sod z t /\ 0 <= z_sod z t < DAY_S.
+Proof. intros. unfold wall, z_lday, z_sod, zoff. apply lsec_split. Qed.
+
+Lemma inst_unix : forall u n, 0 <= n < NS -> unix (u * NS + n) = u /\ nsec (u * NS + n) = n.
+Proof. intros. unfold unix, nsec. zconsts. lia. Qed.
+
+Lemma inst_le : forall u x, u * NS <= x <-> u <= unix x.
+Proof. intros. unfold unix. zconsts. lia. Qed.
+Lemma inst_lt : forall u x, x < (u + 1) * NS <-> unix x <= u.
+Proof. intros. unfold unix. zconsts. lia. Qed.
+
+Lemma z_date_of_lday : forall z a b, z_lday z a = z_lday z b <-> z_date_of z a = z_date_of z b.
+Proof.
+  intros. unfold z_date_of, date_of. fold (z_lday z a). fold (z_lday z b).
+  split; [intros ->; reflexivity|]. intro E.
+  pose proof (civil_from_days_spec (z_lday z a)) as Ha. pose proof (civil_from_days_spec (z_lday z b)) as Hb.
+  rewrite E in Ha. destruct (civil_from_days (z_lday z b)) as [[y m] d]. lia.
+Qed.
+
+(* closed forms that need no hypothesis on the table *)
+Lemma z_start_of_day_cf : forall z t, z_get_start_of_day z t = z_midnight z (z_lday z t).
+Proof.
+  intros. unfold z_get_start_of_day, z_midnight, z_date_of, z_lday.
+  destruct (date_of (zoff z t) t) as [[y m] d] eqn:E. apply date_of_spec in E. destruct E as [[Hm _] Hn].
+  rewrite go_date_z_valid by (zconsts; lia). rewrite Hn.
+  replace (lday (zoff z t) t * DAY_S + (0 * 3600 + 0 * 60 + 0)) with (lday (zoff z t) t * DAY_S) by lia. lia.
+Qed.
+
+Lemma z_end_of_day_cf : forall z t, z_get_end_of_day z t = z_wall_inst z (z_lday z t) 86399.
+Proof.
+  intros. unfold z_get_end_of_day, z_wall_inst, z_date_of, z_lday.
+  destruct (date_of (zoff z t) t) as [[y m] d] eqn:E. apply date_of_spec in E. destruct E as [[Hm _] Hn].
+  rewrite go_date_z_valid by (zconsts; lia). rewrite Hn.
+  replace (23 * 3600 + 59 * 60 + 59) with 86399 by lia. lia.
+Qed.
+
+(* AddDate(0,0,k): the same wall clock k civil days later (whatever package time resolves it to) *)
+Lemma z_add_days_cf : forall z t k,
+  z_add_date z t 0 0 k = z_wall_inst z (z_lday z t + k) (z_sod z t) + nsec t.
+Proof.
+  intros. unfold z_add_date, z_wall_inst, z_date_of, z_clock_of, z_lday, z_sod.
+  destruct (date_of (zoff z t) t) as [[y m] d] eqn:E. apply date_of_spec in E. destruct E as [[Hm _] Hn].
+  destruct (clock_of (zoff z t) t) as [[h mi] s] eqn:C. apply clock_of_spec in C. destruct C as [C _].
+  rewrite !Z.add_0_r. pose proof (t_split t) as [_ Hns].
+  rewrite go_date_z_valid by lia. rewrite days_from_civil_day, Hn, C. reflexivity.
+Qed.
+
+Lemma z_midnight_wall_inst : forall z X, z_midnight z X = z_wall_inst z X 0.
+Proof. intros. unfold z_midnight, z_wall_inst. rewrite Z.add_0_r. reflexivity. Qed.
+
+(* the instant of a regular wall clock (second c of local day X): reads back X and c, and is the boundary between the
+   instants showing less and those showing at least that wall clock *)
+Lemma wall_inst_reads : forall B D z X c, zone_ok B D z -> 2 * B <= D -> 0 <= c < DAY_S ->
+  wall_regular z (X * DAY_S + c) = true ->
+  let r := z_wall_inst z X c in
+  z_lday z r = X /\ z_sod z r = c /\ nsec r = 0 /\
+  (forall x, r <= x <-> X * DAY_S + c <= wall z (unix x)) /\
+  (forall x, x < r + SECOND <-> wall z (unix x) <= X * DAY_S + c) /\
+  (forall x, wall z (unix x) = X * DAY_S + c -> nsec x = 0 -> x = r).
+Proof.
+  intros B D z X c HZ HD Hc HR r. subst r. unfold z_wall_inst.
+  pose proof (regular_order B D z _ HZ HD HR) as O.
+  destruct (resolve_regular B D z _ HZ HD HR) as (E & _ & _).
+  set (u := resolve z (X * DAY_S + c)) in *.
+  destruct (inst_unix u 0 ltac:(zconsts; lia)) as [U N]. rewrite Z.add_0_r in U, N.
+  pose proof (z_wall_split z (u * NS)) as [S1 S2]. rewrite U in S1. rewrite E in S1.
+  assert (L : z_lday z (u * NS) = X) by (zconsts; lia).
+  split; [exact L|]. split; [zconsts; lia|]. split; [exact N|].
+  split; [|split].
+  - intro x. rewrite inst_le. destruct (O (unix x)) as (O1 & _ & _). tauto.
+  - intro x. replace (u * NS + SECOND) with ((u + 1) * NS) by (zconsts; lia). rewrite inst_lt.
+    destruct (O (unix x)) as (_ & O2 & _). tauto.
+  - intros x Hx Nx. destruct (O (unix x)) as (_ & _ & O3). apply O3 in Hx.
+    pose proof (t_split x) as [Sx _]. rewrite Sx, Hx, Nx. subst u. lia.
+Qed.
+
+Lemma z_clock_of_sod : forall z t r, z_sod z t = r -> z_clock_of z t = (r / 3600, r mod 3600 / 60, r mod 60).
+Proof. intros z t r <-. reflexivity. Qed.
+
+Lemma lday_order : forall z x X,
+  (X * DAY_S <= wall z (unix x) <-> X <= z_lday z x) /\ (wall z (unix x) <= X * DAY_S + 86399 <-> z_lday z x <= X).
+Proof. intros. pose proof (z_wall_split z x). zconsts. lia. Qed.
+
+(* ------------------------------------------------------------------ (c) start / end of day *)
+Theorem dst_start_of_day : forall B D z t, zone_ok B D z -> 2 * B <= D ->
+  midnight_regular z (z_lday z t) = true ->
+  let r := z_get_start_of_day z t in
+  z_date_of z r = z_date_of z t /\ z_clock_of z r = (0, 0, 0) /\ nsec r = 0 /\ r <= t /\
+  (forall x, r <= x <-> z_lday z t <= z_lday z x) /\
+  t - r = (z_sod z t + (zoff z r - zoff z t)) * NS + nsec t /\
+  t - r < DAY + 2 * B * NS.
+Proof.
+  intros B D z t HZ HD HR r. subst r. rewrite z_start_of_day_cf, z_midnight_wall_inst.
+  unfold midnight_regular in HR. set (X := z_lday z t) in *.
+  replace (X * DAY_S) with (X * DAY_S + 0) in HR by lia.
+  destruct (wall_inst_reads B D z X 0 HZ HD ltac:(zconsts; lia) HR) as (L & S & N & O1 & _ & _).
+  set (r := z_wall_inst z X 0) in *.
+  assert (Ox : forall x, r <= x <-> X <= z_lday z x).
+  { intro x. rewrite O1. rewrite Z.add_0_r. apply lday_order. }
+  split; [apply z_date_of_lday; exact L|]. split; [rewrite (z_clock_of_sod z r 0 S); reflexivity|].
+  split; [exact N|]. split; [apply Ox; subst X; lia|]. split; [exact Ox|].
+  pose proof (z_wall_split z t) as [W1 W2]. pose proof (z_wall_split z r) as [W3 _].
+  rewrite L, S in W3. fold X in W1. unfold wall in W1, W3. fold (zoff z t) in W1. fold (zoff z r) in W3.
+  pose proof (t_split t) as [T1 T2]. pose proof (t_split r) as [T3 _]. rewrite N in T3.
+  pose proof (off_at_bound B D z (unix t) HZ) as B1. pose proof (off_at_bound B D z (unix r) HZ) as B2.
+  fold (zoff z t) in B1. fold (zoff z r) in B2.
+  split; zconsts; lia.
+Qed.
+
+Theorem dst_end_of_day : forall B D z t, zone_ok B D z -> 2 * B <= D ->
+  wall_regular z (z_lday z t * DAY_S + 86399) = true ->
+  let e := z_get_end_of_day z t in
+  z_date_of z e = z_date_of z t /\ z_clock_of z e = (23, 59, 59) /\ nsec e = 0 /\ t < e + SECOND /\
+  (forall x, x < e + SECOND <-> z_lday z x <= z_lday z t) /\
+  e + SECOND - t = (DAY_S - z_sod z t + (zoff z t - zoff z e)) * NS - nsec t /\
+  e + SECOND - t <= DAY + 2 * B * NS.
+Proof.
+  intros B D z t HZ HD HR e. subst e. rewrite z_end_of_day_cf.
+  set (X := z_lday z t) in *.
+  destruct (wall_inst_reads B D z X 86399 HZ HD ltac:(zconsts; lia) HR) as (L & S & N & _ & O2 & _).
+  set (e := z_wall_inst z X 86399) in *.
+  assert (Ox : forall x, x < e + SECOND <-> z_lday z x <= X).
+  { intro x. rewrite O2. apply lday_order. }
+  split; [apply z_date_of_lday; exact L|]. split; [rewrite (z_clock_of_sod z e 86399 S); reflexivity|].
+  split; [exact N|]. split; [apply Ox; subst X; lia|]. split; [exact Ox|].
+  pose proof (z_wall_split z t) as [W1 W2]. pose proof (z_wall_split z e) as [W3 _].
+  rewrite L, S in W3. fold X in W1. unfold wall in W1, W3. fold (zoff z t) in W1. fold (zoff z e) in W3.
+  pose proof (t_split t) as [T1 T2]. pose proof (t_split e) as [T3 _]. rewrite N in T3.
+  pose proof (off_at_bound B D z (unix t) HZ) as B1. pose proof (off_at_bound B D z (unix e) HZ) as B2.
+  fold (zoff z t) in B1. fold (zoff z e) in B2.
+  split; zconsts; lia.
+Qed.
